@@ -201,7 +201,8 @@ struct BytesWorld : World {
         if (kind == 2) run.fault("hex.illegal_char");
         if (kind == 3) run.fault("hex.odd_digits");
         if (cap < exact) run.fault("hex.insufficient_space");
-        if (!out.intact()) run.violation("C12", "canary", "ascon_bytes_from_hex", fmt("wrote beyond the %zu bytes given", cap));
+        // "never writes beyond the space given" is a clause of C20 itself (and, as any stray write, of C12)
+        if (!out.intact()) { run.violation("C20", "writes_beyond_space_given", "ascon_bytes_from_hex", fmt("wrote beyond the %zu bytes given (textlen=%zu)", cap, text.size())); run.violation("C12", "canary", "ascon_bytes_from_hex", fmt("wrote beyond the %zu bytes given", cap)); }
         if (!in.intact()) run.violation("C12", "canary", "ascon_bytes_from_hex.in", "input canary damaged");
         if (got != expect)
             run.violation("C20", "hex_decode_result", "ascon_bytes_from_hex", fmt("kind=%d textlen=%zu cap=%zu returned %d, grammar says %d", kind, text.size(), cap, got, expect));
